@@ -4,6 +4,7 @@ sys.path.insert(0, os.path.dirname(os.path.dirname(os.path.abspath(__file__))))
 import progen
 
 PID = "C19"
+EXTRA_TARGETS = ("BS.Properties.C19w",)
 PARALLEL = {"C19": 6}
 TIMEOUT = {"quick": 1500, "thorough": 7000}
 RULE = ("histories of 2..4 phases; in a phase 2..5 items run concurrently (started together): runs of generated programs (1..5 "
@@ -144,4 +145,23 @@ def t2(chk, wc, tier, seed):
     gen = "def electAtomicG : Bool := %s\ndef runOnlyByRunnerG : Bool := %s" % ("true" if order_ok else "false", "true" if guarded else "false")
     ties = [("election_atomic_tie", "theorem election_atomic_tie : electAtomicG = true ∧ runOnlyByRunnerG = true := by decide",
              "exec/eval.go Eval: lock, LOST→INIT, runner := (state == INIT), INIT→WAITING, executor.Run only if runner — without unlocking in between")]
-    vlib.t2_check(chk, wc, "C19", ["BS.Model.Elect"], gen, ties)
+    # the wake-up protocol of a task (exec/task.go): Wait assigns the shared channel only when it creates it, Broadcast closes
+    # the current channel and forgets it (the two steps BS.Wake.step models; `abandon` leaves the channel alone)
+    tsrc = open(wc.repo + "/exec/task.go").read()
+    def fbody(sig):
+        try:
+            i = tsrc.index(sig)
+            return tsrc[i:tsrc.index("\n}\n", i)]
+        except ValueError:
+            return ""
+    wait, bc = fbody("func (t *Task) Wait("), fbody("func (t *Task) Broadcast(")
+    wait_ok = (len(re.findall(r"t\.waitc\s*=[^=]", wait)) == 1 and "t.waitc = make(chan struct{})" in wait
+               and re.search(r"if t\.waitc == nil \{\s*t\.waitc = make\(chan struct\{\}\)", wait) is not None
+               and wait.find("waitc := t.waitc") < wait.find("t.Unlock()") < wait.find("select {") < wait.find("t.Lock()"))
+    bc_ok = re.search(r"if t\.waitc != nil \{\s*close\(t\.waitc\)\s*t\.waitc = nil\s*\}", bc) is not None
+    gen += "\ndef waitTouchesChannelOnlyToCreateG : Bool := %s\ndef broadcastClosesAndForgetsG : Bool := %s" % (
+        "true" if wait_ok else "false", "true" if bc_ok else "false")
+    ties.append(("wake_protocol_tie",
+                 "theorem wake_protocol_tie : waitTouchesChannelOnlyToCreateG = true ∧ broadcastClosesAndForgetsG = true := by decide",
+                 "exec/task.go (*Task).Wait / Broadcast: the steps of BS.Wake (no_lost_wakeup)"))
+    vlib.t2_check(chk, wc, "C19", ["BS.Model.Elect", "BS.Model.Wake"], gen, ties)
